@@ -99,7 +99,12 @@ pub struct Labels {
 
 impl Labels {
     pub fn payload(&mut self, name: &str) -> validator::Payload {
-        let p = validator::Payload(name.as_bytes().to_vec());
+        let mut bytes = name.as_bytes().to_vec();
+        if name == "huge" {
+            // larger than the configured max_payload_size: a replica must refuse to vote for it
+            bytes.resize(MAX_PAYLOAD + 1, 0xee);
+        }
+        let p = validator::Payload(bytes);
         self.names.insert(p.hash(), name.to_string());
         p
     }
@@ -107,6 +112,9 @@ impl Labels {
         self.names.get(h).cloned().unwrap_or_else(|| format!("h:{:?}", h).chars().take(40).collect())
     }
     pub fn register(&mut self, p: &validator::Payload) -> String {
+        if let Some(n) = self.names.get(&p.hash()) {
+            return n.clone(); // already named (e.g. "huge": the name is not the content)
+        }
         let name = String::from_utf8(p.0.clone()).unwrap_or_else(|_| format!("bin{}", p.0.len()));
         self.names.insert(p.hash(), name.clone());
         name
@@ -540,7 +548,7 @@ impl World {
             payload_counter: 0,
             stuck: 0,
         };
-        w.log.emit(json!({"e": "header", "n": w.c.n(), "weights": w.c.weights, "faulty": faulty, "bad": ["bad"], "seed": seed}));
+        w.log.emit(json!({"e": "header", "n": w.c.n(), "weights": w.c.weights, "faulty": faulty, "bad": ["bad", "huge"], "seed": seed}));
         for pos in 1..=w.c.n() {
             if !faulty.contains(&pos) {
                 let engine = VerifEngine::new(w.c.genesis.clone());
